@@ -745,7 +745,13 @@ func (d *Design) lintElab(top string, bb map[string]bool) []Diag {
 	return out
 }
 
-func overlap(a, b *driver) bool {
+// overlap reports whether two drivers touch common bits. perWord: drivers of
+// different constant words of an array do not overlap (net arrays); otherwise a
+// memory counts as one object (SPEC section 5).
+func overlap(a, b *driver, perWord bool) bool {
+	if perWord && a.elemConst && b.elemConst && a.elem != b.elem {
+		return false
+	}
 	if a.whole || b.whole {
 		return true
 	}
@@ -771,9 +777,13 @@ func multiDriver(sg *signal) []Diag {
 	reported := map[int]bool{}
 	for i, b := range procs {
 		for _, a := range procs[:i] {
-			if a.procID != b.procID && overlap(a, b) && !reported[b.procID] {
+			if a.procID != b.procID && overlap(a, b, false) && !reported[b.procID] {
 				reported[b.procID] = true
-				report(a, b, "is assigned in more than one always block")
+				what := "is assigned in more than one always block"
+				if sg.isMem && a.elemConst && b.elemConst && a.elem != b.elem {
+					what += " (different constant words; a memory counts as one object)"
+				}
+				report(a, b, what)
 				break
 			}
 		}
@@ -781,7 +791,7 @@ func multiDriver(sg *signal) []Diag {
 	// nets: more than one continuous driver on overlapping bits
 	for i, b := range conts {
 		for _, a := range conts[:i] {
-			if a.procID != b.procID && overlap(a, b) {
+			if a.procID != b.procID && overlap(a, b, true) {
 				report(a, b, "has more than one continuous driver")
 				break
 			}
